@@ -98,7 +98,7 @@ func genC06(rng *rand.Rand, c *Case) {
 	}
 	// disconnect attempts: N: [target kind (0 protected, 1 unprotected, 2 self, 3 unknown id), option]
 	for j := 0; j < 1+rng.Intn(5); j++ {
-		c.Ops = append(c.Ops, Op{C: 0, K: "kick", N: []int{rng.Intn(4), rng.Intn(3)}})
+		c.Ops = append(c.Ops, Op{C: 0, K: "kick", N: []int{rng.Intn(5), rng.Intn(3)}})
 	}
 }
 
@@ -117,6 +117,7 @@ func runC06(w *World) {
 	w.AddAccount("protected", "Protected", "", rp.AccessOf(rp.PCannotBeDiscon, rp.PAnyName, rp.PReadChat))
 	w.AddAccount("plain", "Plain", "", rp.AccessOf(rp.PAnyName, rp.PReadChat))
 	w.AddAccount("existing", "Existing", "", rp.Access{})
+	w.AddAccount("twice", "Twice", "", rp.AccessOf(rp.PAnyName, rp.PReadChat))
 	si := w.StartServer()
 	if si.StartErr != nil {
 		w.Violate("c06-start", "server did not start: %v", si.StartErr)
@@ -276,6 +277,37 @@ func runC06(w *World) {
 						}
 					}
 				}
+			case 4:
+				// an account that is connected twice becomes protected while both sessions are up; the request then
+				// aims at the second session
+				t1 := w.NewClient("twice-a", "10.5.0.11")
+				t2 := w.NewClient("twice-b", "10.5.0.12")
+				if !t1.Login("twice", "", "", 0) || !t1.Agree(t1.Name, 0, 0, "") || !t2.Login("twice", "", "", 0) || !t2.Agree(t2.Name, 0, 0, "") {
+					continue // the account may already be protected and busy from an earlier round; nothing to judge
+				}
+				t2ID := t2.MyUserID()
+				if rep, ok := kicker.SetUser("twice", "Twice", rp.AccessOf(rp.PCannotBeDiscon, rp.PAnyName, rp.PReadChat), PwAbsent, ""); !ok || rep.Err != 0 {
+					w.Violate("c06-set-user-refused", "marking an account cannot-be-disconnected failed: %s", fieldStr(rep, rp.FError))
+					return
+				}
+				w.Probe("kick_second_session_of_freshly_protected_account")
+				rep, ok := kicker.DisconnectUser(t2ID, op.N[1])
+				simrt.Sleep(5 * time.Second)
+				if t2.Closed || t1.Closed {
+					w.Violate("c06-protected-user-disconnected", "an account was marked cannot-be-disconnected while connected twice; a disconnect request with option %d then closed a session of it (first closed=%v, second closed=%v)", op.N[1], t1.Closed, t2.Closed)
+					return
+				}
+				if !ok || rep.Err == 0 {
+					w.Violate("c06-protected-kick-not-refused", "disconnect request (option %d) against the second session of a protected account was not answered with an error", op.N[1])
+					return
+				}
+				if banned, _ := si.Bans.IsBanned("10.5.0.12"); banned {
+					w.Violate("c06-protected-user-banned", "the address of a protected user's second session is in the ban list after a disconnect request with option %d", op.N[1])
+					return
+				}
+				t1.Disconnect()
+				t2.Disconnect()
+				simrt.Sleep(3 * time.Second)
 			case 2:
 				w.Probe("kick_self")
 				kicker.DisconnectUser(selfID, 0)
